@@ -167,9 +167,9 @@ class Run:
             if case.get("netlist"):
                 try:
                     self.netlist = Netlist(case["netlist"])
-                except AssertionError:
-                    raise Unserialisable()       # the netlist itself is rejected: not a die question
-                self.fixed = list(self.netlist.fixed_rectangles())
+                    self.fixed = list(self.netlist.fixed_rectangles())
+                except Exception:
+                    raise Unserialisable()       # the netlist itself is rejected: not a die question (C05)
             self.st0 = get_state()
             try:
                 self.tree = doc_tree(case["doc"])
@@ -182,8 +182,9 @@ class Run:
                 self.impl = "ok"
             except AssertionError:
                 self.impl = "err:Assert"
-            except Exception as e:  # not modelled: always a disagreement
+            except Exception as e:  # not modelled: reported as `operation-raised`
                 self.impl = "err:" + type(e).__name__
+                self.raised = repr(e)[:300]
             self.st1 = get_state()
         finally:
             Rectangle.undefine_epsilon()
@@ -206,13 +207,19 @@ class Run:
                f"{rects_str(d.ground_regions, mode)} ; {rects_str(d.blockages, mode)} ; {rects_str(d.fixed_regions, mode)}"
 
 
-def nearest(vals: list, v) -> int:
-    best, bi = None, 0
-    for i, x in enumerate(vals):
-        dlt = abs(x - v)
-        if best is None or dlt < best:
-            best, bi = dlt, i
-    return bi
+def span_of(vals: list, centre, width) -> tuple[int, int]:
+    """indices (i, j), i < j, of the grid lines whose span has this centre and width — the implementation's own
+    formulas `(x[i] + x[j]) / 2`, `x[j] - x[i]` are used, so an unchanged implementation matches exactly even when
+    neighbouring lines are one ulp apart; otherwise the closest span."""
+    best, bij = None, (0, 1)
+    for i in range(len(vals)):
+        for j in range(i + 1, len(vals)):
+            dlt = abs((vals[i] + vals[j]) / 2 - centre) + abs((vals[j] - vals[i]) - width)
+            if best is None or dlt < best:
+                best, bij = dlt, (i, j)
+                if dlt == 0:
+                    return bij
+    return bij
 
 
 def picks_from(run: Run, grid_reply: str) -> str | None:
@@ -223,13 +230,14 @@ def picks_from(run: Run, grid_reply: str) -> str | None:
     secs = grid_reply[3:].split(" ; ")
     xs = [geo.unsc(t, mode) for t in secs[0].split()[1:]]
     ys = [geo.unsc(t, mode) for t in secs[1].split()[1:]]
+    if len(xs) < 2 or len(ys) < 2:
+        return None if run.die.ground_regions else "0"
+    conv = float if mode == "F" else Fr
     out = []
     for g in run.die.ground_regions:
-        x0, y0, x1, y1 = bb(g)
-        if mode == "F":
-            x0, y0, x1, y1 = float(x0), float(y0), float(x1), float(y1)
-        c0, c1, r0, r1 = nearest(xs, x0), nearest(xs, x1), nearest(ys, y0), nearest(ys, y1)
-        out.append(f"{r0} {max(r1, 1) - 1} {c0} {max(c1, 1) - 1}")
+        c0, c1 = span_of(xs, conv(g.center.x), conv(g.shape.w))
+        r0, r1 = span_of(ys, conv(g.center.y), conv(g.shape.h))
+        out.append(f"{r0} {r1 - 1} {c0} {c1 - 1}")
     return f"{len(out)}" + "".join(" " + p for p in out)
 
 
@@ -372,6 +380,9 @@ def exact_of(case: dict):
 def spec_on_impl(ctx: Ctx, run: Run, verdict: str) -> None:
     case, mode = run.case, run.case["mode"]
     size = case.get("size", 0)
+    if run.die is None and run.impl != "err:Assert":
+        ctx.spec_fail("operation-raised", case, {"raised": getattr(run, "raised", run.impl)}, size)
+        return
     if case.get("expect") == "reject" and run.die is not None:
         ctx.spec_fail("parse_rejects_malformed", case, {"why": case.get("why")}, size)
         return
@@ -792,14 +803,18 @@ def aux_ops(ctx: Ctx, n: int) -> None:
         fam = rng.choice(geo.EXACT_FAMILIES if mode == "Q" else geo.FLOAT_FAMILIES)
         rs = [geo.rand_rect(rng, fam) for _ in range(rng.randint(1, 5))]
         eps = rng.choice([0.0, 1e-9, 0.125, 0.5, 1e-12])
+        ginp = {"op": "gather", "mode": mode, "eps": eps, "rects": [geo.rect_dict(r) for r in rs]}
         Rectangle.set_epsilon(eps)
         try:
             x, y = gather_boundaries(rs)
+        except Exception as e:
+            ctx.spec_fail("operation-raised", ginp, {"raised": repr(e)[:300]}, 1)
+            continue
         finally:
             Rectangle.undefine_epsilon()
         impl = f"{len(x)}" + "".join(" " + sc(v, mode) for v in x) + f" ; {len(y)}" + "".join(" " + sc(v, mode) for v in y)
         reqs.append(f"{mode} gather {sc(eps, mode)} {len(rs)}" + "".join(" " + rect_in(r, mode) for r in rs))
-        todo.append(("gather", {"op": "gather", "mode": mode, "eps": eps, "rects": [geo.rect_dict(r) for r in rs]}, impl, mode))
+        todo.append(("gather", ginp, impl, mode))
         ctx.case(mode, ("gather", impl), True)
     for k in range(n):
         m = rng.randint(0, 12)
